@@ -207,6 +207,49 @@ func c14Spec(r *core.Run, l litSite) {
 	r.Check(okM, "C14.SPEC", "sandbox.Spec.Linux.Resources.Memory.Limit", pos, "memory limit is the positive constant "+mem, "memory limit is "+mem+", not a positive constant")
 	pids, okP := positive(litField(asLit(litField(res, "Pids")), "Limit"))
 	r.Check(okP, "C14.SPEC", "sandbox.Spec.Linux.Resources.Pids.Limit", pos, "pid limit is the positive constant "+pids, "pid limit is "+pids+", not a positive constant")
+	// every resource limit has a constant of its own: a constant that feeds two different limits means one of them
+	// carries another resource's number (the PID limit set from the CPU-share constant)
+	used := map[types.Object][]string{}
+	var walkRes func(lit *ast.CompositeLit, path string)
+	walkRes = func(lit *ast.CompositeLit, path string) {
+		if lit == nil {
+			return
+		}
+		for _, e := range lit.Elts {
+			kv, ok := e.(*ast.KeyValueExpr)
+			if !ok {
+				continue
+			}
+			k, _ := kv.Key.(*ast.Ident)
+			if k == nil {
+				continue
+			}
+			v := ast.Unparen(kv.Value)
+			if u, isU := v.(*ast.UnaryExpr); isU {
+				v = u.X
+			}
+			if sub := asLit(v); sub != nil {
+				walkRes(sub, path+"."+k.Name)
+				continue
+			}
+			ast.Inspect(kv.Value, func(nd ast.Node) bool {
+				if id, isID := nd.(*ast.Ident); isID {
+					if obj, isC := pkg.TypesInfo.Uses[id].(*types.Const); isC {
+						used[obj] = append(used[obj], path+"."+k.Name)
+					}
+				}
+				return true
+			})
+		}
+	}
+	walkRes(res, "Resources")
+	nConst := 0
+	for obj, where := range used {
+		nConst++
+		sort.Strings(where)
+		r.Check(len(where) == 1, "C14.SPEC", "sandbox.Spec.Linux.Resources#one-constant-per-limit("+obj.Name()+")", pos, obj.Name()+" feeds "+where[0], "the constant "+obj.Name()+" feeds "+strings.Join(where, " and ")+": one of these limits carries another resource's number")
+	}
+	r.Floor("C14.SPEC", "named constants feeding the resource limits", nConst, 2)
 }
 
 func c14Runtime(r *core.Run) {
